@@ -182,3 +182,83 @@ CHECKS = {
   'design_ref': 'DESIGN.md §7 C12',
  },
 }
+
+
+# ---- round-5 texts (override the entries above) ------------------------------------------------------------------------
+CHECKS['C02']['text'] = (
+    "Proof (nearly full): the well-formedness invariant (every charge list has the length of the dimension it labels, every non-zero entry "
+    "obeys the additive rule) is preserved by every operation of the history model — orthonormalize MPS/MPO (both modes, dummy bonds), +, -, @, "
+    "apply_operator, zero_qnumbers, copy, from_vector, single-/two-site TDVP and DMRG — for every kernel family with the shape clauses only "
+    "(TDVP/DMRG: sector closure of the Lanczos recurrence and of the local Hamiltonian / bond maps, environment blocks stay block sparse, QR/SVD "
+    "factors sparse by C11/C12; precondition EvoCompat: H.qd = psi.qd, leading MPO bond charge 0), and by compress under the C13 contracts with "
+    "0 <= tol < 1 (scale != 0 is proved); by induction it holds in every reachable state of any history (run_wf_all). Boundary charges are kept "
+    "for non-zero objects by orthonormalize, compress (non-zero factors), TDVP1/TDVP2, DMRG1 and DMRG2 (every 0 <= tol_split < 1; "
+    "dmrg2_boundary_total is unconditional: the call returns and keeps qD[0], qD[L]) (50 theorems). Constructors with a numeric fill and "
+    "graph->MPO are tied by their own exact correspondences (C02 constructors stream, C05).")
+CHECKS['C07']['text'] = (
+    "Proof (full for the spinless constructions, partial for the spin-orbital ones): for every orbital count and all coefficient tensors the chain "
+    "enumeration of the bond-optimized spinless and spin-orbital constructions never fails and yields well-formed chains, so with C05 the optimized "
+    "construction succeeds incl. L = 1 and its graph denotes the sum of its chains; tensors block sparse whenever a constructor returns; the "
+    "optimized constructions RETURN iff some enumerated chain is non-zero. Spinless: the dense elements of the optimized MPO equal "
+    "sum_ij t_ij a+_i a_j + 1/2 sum_ijkl v_ijkl a+_i a+_j a_l a_k with dense Jordan-Wigner matrices (all 13 index orders, anticommutation proved); "
+    "the EXPLICIT (optimize=False) construction is proved for every L: it raises its AssertionError for L < 4 and otherwise returns a consistent, "
+    "layered, duplicate-free graph (every look-up and add_connect_edge of generate_graph and of every term insertion), each inserted term "
+    "contributes exactly the padded word of the corresponding optimized chain with the same coefficient, the graph denotes the same symbolic sum, "
+    "and both MPOs have equal dense elements = the second-quantized operator (explicit_eq_optimized_dense) (40 theorems). The gauge transform is "
+    "modelled: shapes and table look-ups for every L, no KeyError and unitarity of the gauge matrices under a nid_map well-formedness predicate "
+    "proved for L = 4 and executed for L <= 8. Not proved: the interpretation of the spin-orbital chain sum as the second-quantized operator and the "
+    "explicit spin-orbital graph family (compared as complete graphs / MPOs by the correspondence and densely by the oracle); the conjugation "
+    "identity of the gauge transform (exact correspondence on the 32 exactly representable monomial unitaries, L 4..7/8, every pair, plus an "
+    "always-on numerical stream for generic complex unitaries).")
+CHECKS['C08']['text'] = (
+    "Proof (full incl. totality of both integrators): for a Hermitian MPO and purely imaginary dt, single-site TDVP and two-site TDVP with "
+    "tol_split = 0 keep norm 1 and the energy of the normalised input for any number of steps and any number of Krylov iterations "
+    "(mixed-canonical sweep invariant with environment blocks = C04 partial contractions; local Lanczos-exponential steps preserve norm and "
+    "<x,H_eff x>; QR / zero-tolerance split steps are pure gauge); both return the norm of the input; single-site TDVP never increases a bond; "
+    "qd / site count kept. Both integrators are proved to RETURN on every admissible input under the kernel contracts (tdvp1_total; tdvp2_total "
+    "for every 0 <= tol_split < 1 and L >= 2; hypotheses: H well formed, EvoCompat, trailing MPO bond charge 0, numiter >= 1), so the "
+    "conservation statements are unconditional (tdvp1_norm_energy_total, tdvp2_norm_energy_total) (23 theorems). Block sparsity and boundary "
+    "charges of the evolved state are proved in C02. Non-mutation of H is trivial in a functional model and is carried by the exact "
+    "correspondence of whole calls (H snapshot).")
+CHECKS['C09']['text'] = (
+    "Proof (reversibility: full for single-site TDVP in exact arithmetic; exactness clause: see below): a Hermitian Krylov exponential step with dt "
+    "followed by one with -dt is the identity when both runs exhaust their Krylov spaces and E(a)E(-a) = 1, for any complex dt, for site tensors "
+    "and bond matrices, also across unitary bond gauges (QR gauge uniqueness proved). On top of this: a gauge-equivalence relation on sweep "
+    "states with equal dense amplitudes; every sweep step undone by its mirrored step from any gauge-equivalent state; by nested induction a "
+    "half sweep, a full time step and n time steps with dt followed by n with -dt return a gauge-equivalent state, hence the same dense state, "
+    "for every complex dt and every bond profile (tdvp1_steps_reversible); for purely imaginary dt the two CALLS of integrate_local_singlesite "
+    "compose to the identity and the second reports norm 1 (tdvp1_calls_reversible: the prologue's re-orthonormalisation is a pure gauge "
+    "change); totality of the reversed call (19 theorems). Hypotheses are trace predicates over the sub-steps that execute: exact local "
+    "exponentials, QR keeps the bond dimensions, R factors of the -dt runs invertible (the literal 'for any bond dimension' is false without "
+    "this regularity). Not proved: the scalar factor nrm2 != 1 of the second call for non-imaginary dt (tdvp1_calls_reversible_partial), and the "
+    "exactness clause. KNOWN FINDING F10: the exactness clause as stated is false for complete sector manifolds with a bond whose charge blocks "
+    "are limited from different sides (replayed on every run, printed as KNOWN-FINDING); where the left-/right-complete bonds form a prefix / "
+    "suffix it is decided by the exact correspondence of whole calls and, after a break, by the oracle against scipy expm (with and without "
+    "charges, over-complete manifolds, |dt| ||H|| up to 1.5, unnormalised and real-dtype inputs).")
+CHECKS['C10']['text'] = (
+    "Proof (nearly full): single-site DMRG and two-site DMRG are proved to RETURN on every admissible input (dmrg1_total; dmrg2_total for every "
+    "0 <= tol_split < 1, L >= 1); for single-site and for two-site with tol_split = 0 (any sweeps / Lanczos iterations), unconditionally: the "
+    "returned state is normalised, its energy equals the last reported energy, every reported energy is <= the energy of the normalised start "
+    "and >= every lower bound of the quadratic form on the state's QUANTUM-NUMBER SECTOR (amplitude support lemma: a block-sparse MPS vanishes "
+    "outside its sector; sharpness example where the sector bound is not a dense bound), and the reported sequence is non-increasing "
+    "(25 theorems). Not proved: attainment of the exact ground-state energy on a complete manifold, energy clauses for tol_split > 0; carried "
+    "by the exact correspondence of whole calls and the oracle. F11 (floating point, repaired): energies could increase with numiter > local "
+    "dimension; its six failing cases are the regression corpus of the search.")
+CHECKS['C14']['text'] = (
+    "Proof (full in exact arithmetic): output sizes of Lanczos/Arnoldi are mutually consistent for full and early return (every oracle) and never "
+    "exceed the dimension of the vector (the cap of repair F11); under NormContract and a Hermitian map the returned columns are orthonormal, "
+    "alpha real, off-diagonals >= threshold > 0 and V^H A V = T, for the full run and for the shortened result after a breakdown; Arnoldi "
+    "likewise with an upper Hessenberg H for any map; fewer vectors are returned only if a residual norm fell below the threshold; link to the "
+    "property's hypothesis: an exact breakdown means the Krylov space is exhausted, and if v, Av, ..., A^k v are independent all residuals are "
+    "non-zero (a shortened result then has its last residual strictly between 0 and the threshold; a Lean example shows this really happens for "
+    "the floating-point threshold) (18 theorems). Tie to the code: exact correspondence under uninterpreted norm/eigh/exp/expm incl. steered "
+    "breakdowns, m = 1, m > n.")
+CHECKS['C15']['text'] = (
+    "Proof (full in exact arithmetic): lowest Ritz value <= Rayleigh quotient of the start vector and >= every lower bound of the quadratic form; "
+    "Ritz vectors orthonormal with Ritz values as Rayleigh quotients; Hermitian Krylov exponential with imaginary time preserves the norm; once "
+    "the Krylov space is exhausted the Ritz pairs are exact eigenpairs, the lowest one is the smallest eigenvalue reachable from the start "
+    "vector, p(A)v = |v| V p(T) e1 for every polynomial, and the exponential is exact in both branches (Hermitian: NormedSpace.exp(dt A) v for "
+    "dexp = exp; general: expm(dt A) v under the intertwining contract of expm). An eigh_tridiagonal kernel satisfying the contract EXISTS for "
+    "every real symmetric tridiagonal input (Mathlib's spectral theorem, re-sorted ascending), so the statements also hold hypothesis-free for "
+    "that kernel (…_eighExact) and the Hermitian calls always return for a non-zero vector and numiter >= 1 (27 theorems). Outside the model: "
+    "floating point (the threshold test ends the iteration on small non-zero residuals; F11, repaired, was such an effect for m > n).")
